@@ -37,9 +37,25 @@ Definition xnode_real_replaced_release (pre : ostate) (st : ostep) : bool :=
   | _ => false
   end.
 
+(* 9: the placeholder timeout of a gang application (timeoutPlaceholderProcessing: every ask is removed through
+      removeAsksInternal("")) while the real half of one of its swaps is bound on ANOTHER node than the placeholder and not
+      confirmed yet: the real ask disappears from the application, its allocation stays on that node for ever. Third
+      removal path of the defect behind trigger 5 (found by the thorough tier once the gangdeep generator used two task
+      groups and explicit denials on both nodes). *)
+Definition xnode_timeout_trigger (pre : ostate) (st : ostep) : bool :=
+  match st_op st with
+  | OpFirePh id =>
+      match find_app pre id with
+      | Some a => ap_phtimer a && match xnode_inflight_reals a with [] => false | _ => true end
+      | None => false
+      end
+  | _ => false
+  end.
+
 Definition known_trigger_ext (pre : ostate) (st : ostep) : option N :=
   match known_trigger pre st with
   | Some p => Some p
   | None => if linked_placeholder_resize pre st then Some 7
-            else if xnode_real_replaced_release pre st then Some 8 else None
+            else if xnode_real_replaced_release pre st then Some 8
+            else if xnode_timeout_trigger pre st then Some 9 else None
   end.
